@@ -18,10 +18,16 @@ CONSTANTS Export
 \* "authpanic": a token that makes the checker function panic; "authsetidbad": a bad token for which the checker first
 \* assigns the session id (Session.SetID is exposed to the checker) and then rejects
 Firsts == {"authgood", "authbad", "authundecodable", "authstatus", "call", "push", "reply", "type9", "garbage", "truncated", "silence",
-           "authpanic", "authsetidbad", "authsetidgood"}
+           "authpanic", "authsetidbad", "authsetidgood", "authgoodbytes", "authbadbytes"}
+\* "auth...bytes": the token travels as raw bytes and the checker receives it into a []byte.
+\* neighbour = "good": while this connection's checker sits between receiving the token and comparing it, ANOTHER
+\* connection of the process (to another peer) authenticates with a valid token of the same length.  The model gives the
+\* neighbour no influence whatsoever: the verdict depends on what THIS client sent.
+GoodFirsts == {"authgood", "authsetidgood", "authgoodbytes"}
 Cfgs == [first : Firsts, pipe : {"none", "call", "push", "callpush"}, timing : {"atonce", "stepwise"},
-         hookpos : {"none", "before", "after"}, hookverdict : {"ok", "reject"}, path : {"serveconn", "listen"}]
-CfgOK(c) == (c.hookpos = "none" => c.hookverdict = "ok")
+         hookpos : {"none", "before", "after"}, hookverdict : {"ok", "reject"}, path : {"serveconn", "listen"},
+         neighbour : {"none", "good"}]
+CfgOK(c) == (c.hookpos = "none" => c.hookverdict = "ok") /\ (c.neighbour = "good" => c.first \in {"authgoodbytes", "authbadbytes"})
 
 VARIABLES cfg, pc, status, exchanged, authok, indexed, reader, handled, closed, replies
 vars == <<cfg, pc, status, exchanged, authok, indexed, reader, handled, closed, replies>>
@@ -37,10 +43,10 @@ Hook1 ==  \* the other accept hook, when it is registered before the checker
        ELSE pc' = "checker" /\ UNCHANGED <<cfg, status, exchanged, authok, indexed, reader, handled, closed, replies>>
 Checker == \* PreReceive of exactly one frame, verdict, AUTH_REPLY
   /\ pc = "checker" /\ exchanged' = exchanged + 1
-  /\ authok' = (cfg.first \in {"authgood", "authsetidgood"})
+  /\ authok' = (cfg.first \in GoodFirsts)
   /\ replies' = IF cfg.first \in {"garbage", "truncated", "silence"} THEN replies      \* nothing decodable arrived: the reply may not even be writable
-                ELSE Append(replies, IF cfg.first \in {"authgood", "authsetidgood"} THEN "authreply-ok" ELSE "authreply-err")
-  /\ IF cfg.first \in {"authgood", "authsetidgood"}
+                ELSE Append(replies, IF cfg.first \in GoodFirsts THEN "authreply-ok" ELSE "authreply-err")
+  /\ IF cfg.first \in GoodFirsts
        THEN pc' = "hook2" /\ UNCHANGED <<status, closed>>
        ELSE Reject
   /\ UNCHANGED <<cfg, indexed, reader, handled>>
@@ -80,7 +86,7 @@ RejectedIsClosed     == pc = "end" /\ ~(authok /\ status = "Ok") => closed /\ ~i
 
 Established(c) == c.first = "authgood" /\ ~(c.hookverdict = "reject")
 Emit == Export = "" \/ pc' # "end" \/
-  Serialize(ToJson([path |-> cfg.path, first |-> cfg.first, pipe |-> cfg.pipe, timing |-> cfg.timing, hookpos |-> cfg.hookpos, hookverdict |-> cfg.hookverdict,
+  Serialize(ToJson([path |-> cfg.path, neighbour |-> cfg.neighbour, first |-> cfg.first, pipe |-> cfg.pipe, timing |-> cfg.timing, hookpos |-> cfg.hookpos, hookverdict |-> cfg.hookverdict,
                     established |-> (status' = "Ok"), handled |-> handled', exchanged |-> exchanged', replies |-> replies']) \o "\n", Export,
             [format |-> "TXT", charset |-> "UTF-8", openOptions |-> <<"WRITE", "CREATE", "APPEND">>]).exitValue = 0
 =============================================================================
